@@ -351,6 +351,7 @@ def judgeLine (s0 : JState) (line : String) : JState :=
       if v == va && v == vm then s else s.flag s!"reference-reads-differ {line}"
     | ["r", "aa", a, _v, res] => if res == "ok" then useLive (stepEvent s) "add_action" line (jOid a) else s
     | ["r", "cmd", _a, _v, _res] => stepEvent s
+    | ["r", "gh", _a, _k] => stepEvent s
     | ["r", "ra", a, _v, res] => if res == "!gone" then s else useLive (stepEvent s) "remove_action" line (jOid a)   -- the issuer may have been destructed by the action it triggered
     | ["r", "ld", _n, v, k, lv] =>
       let s := stepEvent s
